@@ -179,14 +179,17 @@ func (s *c08Sess) checkBody(n *wnode, sc *lmScan, b uint64) {
 		}
 	}
 	// sparsevol (rles) and coarse
-	for _, form := range []string{"sparsevol/%d?format=rles", "sparsevol/%d?format=srles"} {
+	for _, form := range []string{"sparsevol/%d?format=rles", "sparsevol/%d?format=srles", "sparsevol/%d?format=blocks"} {
 		r, ok := s.get(n, fmt.Sprintf(form, b), nil)
 		if !ok {
 			return
 		}
 		var runs [][4]int32
 		var e string
-		if strings.Contains(form, "srles") {
+		if strings.Contains(form, "format=blocks") {
+			runs, e = decodeBinaryBlocks(r.Body)
+			s.c.Count("sparsevol format=blocks")
+		} else if strings.Contains(form, "srles") {
 			// streaming RLEs: no header, just runs
 			if len(r.Body)%16 != 0 {
 				e = fmt.Sprintf("streaming RLE body of %d bytes", len(r.Body))
@@ -983,6 +986,76 @@ func (s *c08Sess) indexEchoEpisode() {
 	w.settle()
 	s.c.Count("episode index-echo")
 	s.checkVersion(n)
+}
+
+// decodeBinaryBlocks: the format=blocks sparse volume (header gx,gy,gz,label; per block: offset, content flag,
+// then per 8x8x8 sub-block a flag and, for mixed sub-blocks, a 64-byte bit mask) as one run per voxel
+func decodeBinaryBlocks(b []byte) ([][4]int32, string) {
+	if len(b) == 0 {
+		return nil, ""
+	}
+	if len(b) < 20 {
+		return nil, fmt.Sprintf("binary blocks header of %d bytes", len(b))
+	}
+	gx, gy, gz := int32(binary.LittleEndian.Uint32(b[0:])), int32(binary.LittleEndian.Uint32(b[4:])), int32(binary.LittleEndian.Uint32(b[8:]))
+	if gx <= 0 || gy <= 0 || gz <= 0 || gx > 64 || gy > 64 || gz > 64 {
+		return nil, fmt.Sprintf("binary blocks header with %d x %d x %d sub-blocks", gx, gy, gz)
+	}
+	p := 20
+	var runs [][4]int32
+	for p < len(b) {
+		if p+13 > len(b) {
+			return nil, "truncated block header"
+		}
+		ox, oy, oz := int32(binary.LittleEndian.Uint32(b[p:])), int32(binary.LittleEndian.Uint32(b[p+4:])), int32(binary.LittleEndian.Uint32(b[p+8:]))
+		flag := b[p+12]
+		p += 13
+		switch flag {
+		case 0:
+		case 1:
+			for z := int32(0); z < gz*8; z++ {
+				for y := int32(0); y < gy*8; y++ {
+					runs = append(runs, [4]int32{ox, oy + y, oz + z, gx * 8})
+				}
+			}
+		case 2:
+			for sz := int32(0); sz < gz; sz++ {
+				for sy := int32(0); sy < gy; sy++ {
+					for sx := int32(0); sx < gx; sx++ {
+						if p >= len(b) {
+							return nil, "truncated sub-block flag"
+						}
+						f := b[p]
+						p++
+						switch f {
+						case 0:
+						case 1:
+							for z := int32(0); z < 8; z++ {
+								for y := int32(0); y < 8; y++ {
+									runs = append(runs, [4]int32{ox + sx*8, oy + sy*8 + y, oz + sz*8 + z, 8})
+								}
+							}
+						case 2:
+							if p+64 > len(b) {
+								return nil, "truncated sub-block mask"
+							}
+							for i := int32(0); i < 512; i++ {
+								if b[p+int(i>>3)]&(1<<uint(i%8)) != 0 {
+									runs = append(runs, [4]int32{ox + sx*8 + i%8, oy + sy*8 + (i/8)%8, oz + sz*8 + i/64, 1})
+								}
+							}
+							p += 64
+						default:
+							return nil, fmt.Sprintf("sub-block content flag %d", f)
+						}
+					}
+				}
+			}
+		default:
+			return nil, fmt.Sprintf("block content flag %d", flag)
+		}
+	}
+	return runs, ""
 }
 
 // sparsevolGapEpisode (own instance, own oracle): a body whose voxels lie in two blocks of one block row that are
